@@ -49,6 +49,7 @@ pub fn facts(args: &[String]) -> i32 {
     let repo = arg_value(args, "--repo").unwrap_or("/repo".into());
     let home = private_home("c16");
     let shipped = shipped_constants(&repo);
+    let sources = shipped_sources(&repo);
     let (db, _) = build_db();
     let mut out = Out::create(&outp);
     let mut n = 0usize;
@@ -71,13 +72,17 @@ pub fn facts(args: &[String]) -> i32 {
             match hit {
                 Some((_, c)) => {
                     rec["tokens"] = json!(c.tokens);
+                    // the source the library resolves must be the shipped source with that identifier
                     let source_ok = match c.source {
-                        Some(id) => db.get_source(id).is_some(),
+                        Some(id) => match (db.get_source(id), sources.get(&id)) {
+                            (Some(s), Some((d, u))) => s.id == id && *s.description == **d && s.url.as_deref().map(|x| x.to_string()) == *u,
+                            _ => false,
+                        },
                         None => true,
                     };
                     rec["complete"] = json!(source_ok && !c.description.is_empty());
                     if !source_ok {
-                        rec["why"] = json!("the source of the constant does not resolve");
+                        rec["why"] = json!("the source of the constant does not resolve to the shipped source with its identifier");
                     }
                 }
                 None => {
@@ -123,7 +128,10 @@ pub fn codec(args: &[String]) -> i32 {
         let v: Value = serde_json::from_str(&l).unwrap();
         let (key, name) = (v["key"].as_str().unwrap(), v["name"].as_str().unwrap());
         let r = std::panic::catch_unwind(|| {
-            let c: Compound = name.parse().map_err(|e| format!("{:?}", e))?;
+            let c: Compound = match name.parse() {
+                Ok(c) => c,
+                Err(_) => return Ok((Vec::new(), false, true)), // not a unit on its own: not parsed, nothing to round-trip
+            };
             let names = unit_names(&c);
             let bytes = serde_cbor::to_vec(&c).map_err(|e| e.to_string())?;
             let back: Compound = serde_cbor::from_slice(&bytes).map_err(|e| e.to_string())?;
@@ -133,10 +141,10 @@ pub fn codec(args: &[String]) -> i32 {
         match r {
             Ok(Ok((names, cbor_ok, json_ok))) => {
                 let written = names.first().map(|x| x.0.clone()).unwrap_or_default();
-                line(json!({"kind": "unit", "key": key, "name": name, "ok": names.len() == 1, "written": written.trim_start_matches('#'),
+                line(json!({"kind": if key == "?" { "unit_unknown" } else { "unit" }, "key": key, "name": name, "ok": names.len() == 1, "written": written.trim_start_matches('#'),
                             "derived": written.starts_with('#'), "reads_as": ids.key(&written), "cbor": cbor_ok, "json": json_ok, "err": ""}), &mut n);
             }
-            Ok(Err(e)) => line(json!({"kind": "unit", "key": key, "name": name, "ok": false, "written": "", "derived": false, "reads_as": "", "cbor": false, "json": false, "err": e}), &mut n),
+            Ok(Err(e)) => line(json!({"kind": if key == "?" { "unit_unknown" } else { "unit" }, "key": key, "name": name, "ok": false, "written": "", "derived": false, "reads_as": "", "cbor": false, "json": false, "err": e}), &mut n),
             Err(e) => line(json!({"kind": "unit", "key": key, "name": name, "ok": false, "written": "", "derived": false, "reads_as": "", "cbor": false, "json": false, "err": panic_text(e)}), &mut n),
         }
     }
@@ -292,6 +300,7 @@ pub fn cli(args: &[String]) -> i32 {
     let outp = arg_value(args, "--out").expect("--out");
     let any = arg_value(args, "--any").expect("--any");
     let ids = arg_value(args, "--ids").map(|p| Ids::load(&p));
+    let modes4 = args.iter().any(|a| a == "--modes4");
     let home = private_home("c19");
     let db = Db::open().expect("on-disk database in the private directory");
     let queries: Vec<String> = read_lines(&inp).iter().map(|l| serde_json::from_str::<String>(l).unwrap_or_else(|_| l.clone())).collect();
@@ -301,8 +310,9 @@ pub fn cli(args: &[String]) -> i32 {
     spec.limit = 12;
     spec.exponent_limit = 12;
     for (qi, q) in queries.iter().enumerate() {
-        let mode = ["default", "exact", "describe"][qi % 3];
-        let o = run_query(&db, q, mode == "describe");
+        let mode = if modes4 { ["default", "exact", "describe", "describe_after"][qi % 4] } else { ["default", "exact", "describe"][qi % 3] };
+        let describe_mode = mode == "describe" || mode == "describe_after";
+        let o = run_query(&db, q, describe_mode);
         let results: Vec<Value> = o.results.iter().map(|r| match r {
             Ok(v) => json!({"k": "val", "u": ids.as_ref().map(|i| crate::lang::units_json(&unit_names(&v.unit), i)).unwrap_or_else(|| json!([])), "msg": "",
                             "num": v.value.numer().to_string(), "den": v.value.denom().to_string(),
@@ -316,7 +326,7 @@ pub fn cli(args: &[String]) -> i32 {
             let parsed = anything::parse(q);
             if let Ok(parsed) = parsed {
                 let mut ds = Vec::new();
-                let opts = if mode == "describe" { anything::Options::default().describe() } else { anything::Options::default() };
+                let opts = if describe_mode { anything::Options::default().describe() } else { anything::Options::default() };
                 let r = std::panic::catch_unwind(std::panic::AssertUnwindSafe(|| {
                     for _ in anything::query(&parsed, &db, opts, &mut ds) {}
                 }));
@@ -340,14 +350,22 @@ pub fn cli(args: &[String]) -> i32 {
         cmd.env("XDG_DATA_HOME", &home).env("HOME", &home).env("NO_COLOR", "1").env_remove("RUST_LOG").env_remove("ANYTHING_VERIF_TRACE").env_remove("ANYTHING_VERIF_CRASH");
         match mode {
             "exact" => {
-                cmd.arg("--exact");
+                cmd.arg("--exact").arg("--").arg(q);
             }
             "describe" => {
-                cmd.arg("--describe");
+                cmd.arg("--describe").arg("--").arg(q);
             }
-            _ => {}
+            "describe_after" if !q.trim_start().starts_with('-') && !q.is_empty() => {
+                // the flag behind the query (a query that starts with `-` would itself be read as a flag)
+                cmd.arg(q).arg("--describe");
+            }
+            "describe_after" => {
+                cmd.arg("--describe").arg("--").arg(q);
+            }
+            _ => {
+                cmd.arg("--").arg(q);
+            }
         }
-        cmd.arg("--").arg(q);
         let res = cmd.output();
         let (stdout, stderr, code) = match res {
             Ok(o) => (String::from_utf8_lossy(&o.stdout).to_string(), String::from_utf8_lossy(&o.stderr).to_string(), o.status.code().unwrap_or(-1)),
